@@ -113,6 +113,36 @@ func classifyDirEdit(base, cur []kv) string {
 	return "hashed-edit-undetected"
 }
 
+// headerSum is the sum the first line of an atlas.sum text carries, read the
+// way the documented format says (line up to LF, optional CR, optional "h1:").
+func headerSum(sum string) string {
+	l := sum
+	if i := strings.IndexByte(l, '\n'); i >= 0 {
+		l = l[:i]
+	}
+	l = strings.TrimSuffix(l, "\r")
+	return strings.TrimPrefix(l, "h1:")
+}
+
+// namesWF: ".sql" occurs in every name exactly once, as the suffix (hypothesis of C06_detect).
+func namesWF(fs []kv) bool {
+	for _, f := range fs {
+		if !strings.HasSuffix(f.n, ".sql") || strings.Index(f.n, ".sql") != len(f.n)-4 {
+			return false
+		}
+	}
+	return true
+}
+
+func namesOK(fs []kv) bool {
+	for _, f := range fs {
+		if !nameParses(f.n) {
+			return false
+		}
+	}
+	return true
+}
+
 func catHF(h migrate.HashFile) string {
 	var b strings.Builder
 	for _, e := range h {
@@ -207,6 +237,15 @@ func (g *gen) check(kind string, base []kv, baseHF migrate.HashFile, baseSum str
 		}
 	case *sum == baseSum:
 		w.NonTrivial(key(st))
+		// which detection theorem's hypotheses this case meets
+		switch {
+		case namesOK(base) && namesWF(base) && namesWF(cur) && plain(base) && plain(cur):
+			w.Count("hyp:detect_plain")
+		case namesWF(base) && namesWF(cur):
+			w.Count("hyp:detect_wf")
+		default:
+			w.Count("hyp:none(names not wf)")
+		}
 		if o.v == "ok" {
 			w.Violation(id, classifyDirEdit(base, cur), desc+": edited directory validates")
 			return
@@ -229,6 +268,9 @@ func (g *gen) check(kind string, base []kv, baseHF migrate.HashFile, baseSum str
 		if o.v == "ok" {
 			cls := "sumfile-edit-undetected"
 			switch {
+			case headerSum(*sum) != baseHF.Sum():
+				// the header line no longer carries the sum of the entries: never a known finding
+				cls = "sumfile-header-edit-undetected"
 			case o.uOK && eqHF(o.uEnt, baseHF):
 				cls = "sumfile-edit-same-entries"
 			case o.uOK && catHF(o.uEnt) == catHF(baseHF):
